@@ -29,7 +29,10 @@ META = {
     'level_text': 'Full proof on the model: for every finite history of apply / re-apply / Return / When / Origin / Cancel / Reset / kept-handle operations over any '
                   'builders and targets, saved origin bytes are pristine, the image differs from pristine only by whole 13-byte entry jumps of '
                   'registered and applied patches (and placeholder bodies), Reset/Cancel restore exact bytes and original behaviour for every '
-                  'map-iteration order, a second Reset changes nothing, re-mocking after Reset works, and operations on f never change g != f.',
+                  'map-iteration order, a second Reset changes nothing, re-mocking after Reset works (builder keys and method keys through fresh or kept struct '
+                  'mockers), operations on f never change bytes or behaviour class of g != f, and the behaviour class is determined by the entry bytes in every '
+                  'reachable state: pristine => orig, jump to callback k => cb k, jump to stub n => stub n served by the live When of a not cancelled mocker '
+                  '(ownership invariant); the jump bytes dispatch to the named funcval by C15.amd64_entry.',
     'level_note': 'Trusted: Lean kernel (propext, Classical.choice, Quot.sound only); the hand transcription Model/Patch.lean, validated on every '
                   'run by executing it next to the real code on generated histories (whole-image diff + behaviour after each step); tools/gen for '
                   'the emitter. Measured, not modelled: function sizes, first bytes, funcval addresses and the outcome of the placeholder '
